@@ -224,6 +224,11 @@ func genSoup(t *rapid.T) string {
 		switch {
 		case k == 19:
 			sb.WriteString(rapid.SampledFrom(uniSpaces).Draw(t, "uspace"))
+		case k == 17:
+			// an unfinished or odd number directly followed by a character of several bytes (or a lone continuation byte):
+			// whatever the number scanner gives back or skips, it must do so by whole characters
+			sb.WriteString(rapid.SampledFrom([]string{"1e", "-5e", ".5e", "-e", "+e", "1e+", "1E-", "0x", "0b", "0o", "1.", "-.", ".", "-", "+", "12", "0b1", "0x1F", "5.e", "1e1", "T", "x", "\"s\"", "[2", "[2..", "..."}).Draw(t, "oddNumber"))
+			sb.WriteString(rapid.SampledFrom([]string{"世", "\u3000", "\u00a0", "\u2028", "😀", "é", "\u0085", "\ufeff", "\x80", "\xe4\xb8", "\U0010FFFF"}).Draw(t, "wideFollower"))
 		case k == 18:
 			// a number with many digits in some position
 			sb.WriteString(strings.Repeat(rapid.SampledFrom([]string{"9", "1", "0"}).Draw(t, "digit"), rapid.IntRange(1, 40).Draw(t, "ndigits")))
